@@ -1921,10 +1921,14 @@ class AtTimezone(Term):
         self.field = self.field.replace_table(current_table, new_table)
 
     def get_sql(self, ctx: SqlContext) -> str:
+        # the zone is a string literal: escaped like any other inlined string
+        zone = str(self.zone).replace("'", "''")
+        if ctx.dialect == Dialects.MYSQL:
+            zone = zone.replace("\\", "\\\\")
         sql = "{name} AT TIME ZONE {interval}'{zone}'".format(
             name=self.field.get_sql(ctx.copy(with_alias=False)),
             interval="INTERVAL " if self.interval else "",
-            zone=self.zone,
+            zone=zone,
         )
         if ctx.with_alias:
             return format_alias_sql(sql, self.alias, ctx)
